@@ -40,3 +40,9 @@
 ; AX ancIDs-def
 (assert (forall ((hp (Array Int RLst)) (hid (Array Int String)) (d Int) (id String))
   (! (= (select (ancIDs hp hid d) id) (ancVia hp hid (select hp d) id)) :pattern ((select (ancIDs hp hid d) id)))))
+; ---- the documents of a whole chain of loaded files
+;   allFileDocs h fs : the documents of the files fs, in order (h: the field file.docs)
+(define-fun-rec allFileDocs ((h (Array Int RLst)) (fs RLst)) RLst
+  (ite ((_ is RNil) fs) RNil (rapp (select h (rhd fs)) (allFileDocs h (rtl fs)))))
+(define-fun-rec allBelow ((fs RLst) (lo Int) (hi Int)) Bool
+  (ite ((_ is RNil) fs) true (and (not (= (rhd fs) 0)) (>= (rhd fs) lo) (< (rhd fs) hi) (allBelow (rtl fs) lo hi))))
